@@ -40,7 +40,7 @@ def gen_cases(tier: str, seed: int):
     kinds = list(matgen.ALL_LEAVES)
     i = 0
     for kind in ("ops", "order", "eq", "nearmiss", "write"):
-        for j in range(n):
+        for j in range(n * (4 if kind == "order" else 1)):
             i += 1
             yield {"kind": kind, "seed": [seed, i], "leaf": kinds[j % len(kinds)], "size": 1 + (j * 5) % 6,
                    "depth": 1 + j % 4}
@@ -181,6 +181,12 @@ def case_order(case, obs) -> None:
     attrs = available_attrs(a.m)
     v = rng.standard_normal(a.m.shape[0])
     oa, ob = list(rng.permutation(attrs)), list(rng.permutation(attrs))
+    if rng.integers(0, 3) == 0:
+        # maximal contrast: one instance hands out its derived objects (T, inv, sqrt) only after every cached quantity is
+        # in place, the other before any of them
+        derived = [x for x in oa if x in ("T", "inv", "sqrt")]
+        rest = [x for x in oa if x not in derived]
+        oa, ob = rest + derived, derived[::-1] + rest[::-1]
     ra, rb = {}, {}
     for x in oa:
         ra[x] = to_plain(get_attr(a.m, x, v)) if x != "__hash__" else hash(a.m)
@@ -201,6 +207,24 @@ def case_order(case, obs) -> None:
         again = to_plain(get_attr(a.m, x, v))
         if not plain_equal(again, ra[x], 0):
             obs.violation(f"unstable-repeat:{x}:{type(a.m).__name__}", f"repeated access of {x} not bitwise stable; expr={a.desc}")
+    # second level: the derived objects (transpose, inverse, square root) handed out after different access histories
+    # must themselves be the same values, whatever was cached on the parent when they were constructed
+    from mici import matrices as mm
+
+    for x in ("T", "inv", "sqrt"):
+        if x not in attrs:
+            continue
+        sa, sb = getattr(a.m, x), getattr(b.m, x)
+        if not isinstance(sa, mm.Matrix):
+            continue
+        sub_attrs = [y for y in available_attrs(sa) if y in ("array", "T", "inv", "log_abs_det", "diagonal", "sqrt", "eigval")]
+        for y in (list(rng.permutation(sub_attrs)) if sub_attrs else []):
+            obs.count("order_derived_attr_compared")
+            va, vb = to_plain(get_attr(sa, y, v)), to_plain(get_attr(sb, y, v))
+            if not plain_equal(va, vb, 1e-9):
+                obs.violation(f"order-dependent:{x}.{y}:{type(a.m).__name__}",
+                              f"{type(a.m).__name__}.{x}.{y} differs between instances whose attributes were first accessed in orders "
+                              f"{oa} and {ob}; expr={a.desc}")
     obs.token("order", case["leaf"], case["size"] == 1, oa[:3])
 
 
